@@ -61,3 +61,8 @@ example : runLabels init [.setTimeout, .clear 0, .expire 0] = none ∧
   decide +kernel
 
 end GN.Props.C05
+
+/-! ## Progress clauses
+
+Proved in `GN/EventLoop/Progress.lean` (audited with this property): progress: a timeout or immediate that is not cleared fires exactly once - its firing path (at most two own steps) is always enabled, no step other than clear of that very job can take it away, and after it has fired once it stays at one.
+Theorems: `GN.EventLoop.Progress.uncleared_oneshot_fires_exactly_once`, `GN.EventLoop.Progress.other_steps_cannot_stop_it`, `GN.EventLoop.Progress.uncleared_oneshot_fires_within_two_own_steps`. -/
